@@ -5,7 +5,8 @@ CONSTANTS
   RecyclesWrappers = FALSE
   SharedDefaults = FALSE
   MaxOps = 4
+  SharedCloser = FALSE
   OnceIsNilCheck = FALSE
-INVARIANTS InvIsolated InvBody InvCtx InvWire InvRetained InvPick InvOwn InvOneClient
+INVARIANTS InvIsolated InvBody InvStutter InvCtx InvWire InvRetained InvPick InvOwn InvOneClient
 PROPERTIES AllDone
 CHECK_DEADLOCK FALSE
